@@ -191,10 +191,13 @@ pub enum Cb {
     TryNewOk,
     /// … returning `Err(())`: everything allocated so far is released
     TryNewErr,
+    /// the callback of `arena::rootless_mutate`: a throw-away arena without a root (`new 0`),
+    /// dropped when the call returns
+    Rootless,
 }
 
 impl Cb {
-    pub const ALL_NAMES: [(&'static str, Cb); 9] = [
+    pub const ALL_NAMES: [(&'static str, Cb); 10] = [
         ("mutate", Cb::Mutate),
         ("mutate_root", Cb::MutateRoot),
         ("finalize", Cb::Finalize),
@@ -204,13 +207,18 @@ impl Cb {
         ("new_ctor", Cb::NewCtor),
         ("try_new_ok", Cb::TryNewOk),
         ("try_new_err", Cb::TryNewErr),
+        ("rootless_mutate", Cb::Rootless),
     ];
     pub fn name(self) -> &'static str {
         Cb::ALL_NAMES.iter().find(|(_, k)| *k == self).map(|(n, _)| *n).unwrap()
     }
     /// the callback may replace what the root holds
     pub fn root_mut(self) -> bool {
-        !matches!(self, Cb::Mutate | Cb::Finalize)
+        !matches!(self, Cb::Mutate | Cb::Finalize | Cb::Rootless)
+    }
+    /// the callback has a root at all
+    pub fn has_root(self) -> bool {
+        self != Cb::Rootless
     }
     pub fn is_ctor(self) -> bool {
         matches!(self, Cb::NewCtor | Cb::TryNewOk | Cb::TryNewErr)
@@ -232,11 +240,114 @@ pub enum Barrier {
     Fbw(Option<u32>, u32),
 }
 
+/// The route by which a slot of an allocated object is written.  `Write` / `Raw` / `Stb` exist for
+/// every slot-bearing kind but `OnceCell` (which takes `Raw` only); the others are the crate's own
+/// safe setters of an object whose whole value is a lock (`Gc<Lock<T>>`, `Gc<RefLock<T>>`,
+/// `Gc<OnceLock<T>>`).
 #[derive(Clone, Copy, Debug, PartialEq, Eq, Hash)]
 pub enum Path {
+    /// `Gc::write(mc, g)` + `field!` / `unlock()` + the cell's own setter
     Write,
+    /// unsafe `as_cell` / `as_ref_cell` / `as_once_cell` write, barrier placed by an earlier op
     Raw,
+    /// unsafe write, then `backward_barrier(g, None)`
     Stb,
+    /// `Gc<Lock<T>>::set(mc, v)`
+    LockSet,
+    /// `Gc<RefLock<T>>::borrow_mut(mc)`
+    BorrowMut,
+    /// `Gc<RefLock<T>>::try_borrow_mut(mc)`
+    TryBorrowMut,
+    /// `Gc::unlock(g, mc)` + the cell's own setter (`Cell::set` / `RefCell::borrow_mut`)
+    Unlock,
+    /// `Gc<OnceLock<T>>::set(mc, v)`; on an occupied cell nothing is stored (protocol word
+    /// `onceset-full`, a read for the model)
+    OnceSet,
+    /// `Gc<OnceLock<T>>::get_or_init(mc, || v)`: barrier, then the closure (which allocates the
+    /// child when `v` names the next fresh id), then the store; on an occupied cell a read
+    /// (`getorinit-full`)
+    GetOrInit,
+}
+
+impl Path {
+    pub const ALL: [Path; 9] =
+        [Path::Write, Path::Raw, Path::Stb, Path::LockSet, Path::BorrowMut, Path::TryBorrowMut, Path::Unlock, Path::OnceSet, Path::GetOrInit];
+    pub fn name(self) -> &'static str {
+        match self {
+            Path::Write => "write",
+            Path::Raw => "raw",
+            Path::Stb => "stb",
+            Path::LockSet => "lockset",
+            Path::BorrowMut => "borrowmut",
+            Path::TryBorrowMut => "tryborrowmut",
+            Path::Unlock => "unlock",
+            Path::OnceSet => "onceset",
+            Path::GetOrInit => "getorinit",
+        }
+    }
+    /// the path issues its own barrier (everything but `Raw`)
+    pub fn sanctioned(self) -> bool {
+        self != Path::Raw
+    }
+}
+
+/// Object kinds of the harness (src/node.rs).
+#[derive(Clone, Copy, Debug, PartialEq, Eq, Hash)]
+pub enum Kind {
+    /// struct with 3 `RefLock<Option<P>>` fields
+    Node,
+    /// `NEEDS_TRACE = false`, no slots
+    Leaf,
+    /// `Gc<RefLock<RefBody>>`: the whole value is a `RefLock`, 3 slots
+    RefNode,
+    /// `Gc<Lock<LockBody>>`: the whole value is a `Lock`, 1 slot; `Copy`, hence no drop glue
+    LockCell,
+    /// `Gc<OnceLock<OnceBody>>`: the whole value is a `OnceLock`, 1 slot, allocated empty
+    OnceCell,
+}
+
+impl Kind {
+    pub const ALL: [Kind; 5] = [Kind::Node, Kind::Leaf, Kind::RefNode, Kind::LockCell, Kind::OnceCell];
+    pub fn name(self) -> &'static str {
+        match self {
+            Kind::Node => "node",
+            Kind::Leaf => "leaf",
+            Kind::RefNode => "refnode",
+            Kind::LockCell => "lockcell",
+            Kind::OnceCell => "oncecell",
+        }
+    }
+    pub fn of_leaf(leaf: bool) -> Kind {
+        if leaf { Kind::Leaf } else { Kind::Node }
+    }
+    pub fn nslots(self) -> usize {
+        match self {
+            Kind::Node | Kind::RefNode => 3,
+            Kind::Leaf => 0,
+            Kind::LockCell | Kind::OnceCell => 1,
+        }
+    }
+    /// number of slot words an `alloc` of this kind takes (a `OnceCell` is allocated empty)
+    pub fn alloc_args(self) -> usize {
+        match self {
+            Kind::OnceCell => 0,
+            k => k.nslots(),
+        }
+    }
+    /// the value type has no drop glue: its destructor run is not observable (the `live` flag of
+    /// the snapshot still is)
+    pub fn nodrop(self) -> bool {
+        matches!(self, Kind::LockCell | Kind::OnceCell)
+    }
+    pub fn paths(self) -> &'static [Path] {
+        match self {
+            Kind::Node => &[Path::Write, Path::Raw, Path::Stb],
+            Kind::Leaf => &[],
+            Kind::RefNode => &[Path::Write, Path::Raw, Path::Stb, Path::BorrowMut, Path::TryBorrowMut, Path::Unlock],
+            Kind::LockCell => &[Path::Write, Path::Raw, Path::Stb, Path::LockSet, Path::Unlock],
+            Kind::OnceCell => &[Path::Raw, Path::OnceSet, Path::GetOrInit],
+        }
+    }
 }
 
 #[derive(Clone, Debug, PartialEq, Eq, Hash)]
@@ -247,7 +358,7 @@ pub enum Op {
     Collect { method: Method, cont: Cont, fault: Option<(usize, usize)> },
     Enter(Cb),
     Leave { panic: bool },
-    Alloc { leaf: bool, slots: Vec<SSlot> },
+    Alloc { kind: Kind, slots: Vec<SSlot> },
     ReadRoot(usize),
     Read(u32, usize),
     Downgrade(u32),
@@ -259,6 +370,9 @@ pub enum Op {
     Store { path: Path, p: u32, i: usize, v: SSlot },
     RootStore { i: usize, v: SSlot },
     DropArena,
+    /// A protocol line that the executor writes by itself while executing the op that follows it in
+    /// the trace (the barrier / allocation phases of `store getorinit`); ignored when replayed.
+    Marker,
 }
 
 fn opt(o: &Option<u32>) -> String {
@@ -293,8 +407,8 @@ impl fmt::Display for Op {
             Op::Enter(k) => write!(f, "enter {}", k.name()),
             Op::Leave { panic: false } => write!(f, "leave"),
             Op::Leave { panic: true } => write!(f, "leave panic"),
-            Op::Alloc { leaf, slots } => {
-                write!(f, "alloc {}", if *leaf { "leaf" } else { "node" })?;
+            Op::Alloc { kind, slots } => {
+                write!(f, "alloc {}", kind.name())?;
                 for s in slots {
                     write!(f, " {}", show_slot(s))?;
                 }
@@ -311,16 +425,10 @@ impl fmt::Display for Op {
             Op::Barrier(Barrier::Bbw(p, c)) => write!(f, "barrier bbw {p} {c}"),
             Op::Barrier(Barrier::Fb(p, c)) => write!(f, "barrier fb {} {c}", opt(p)),
             Op::Barrier(Barrier::Fbw(p, c)) => write!(f, "barrier fbw {} {c}", opt(p)),
-            Op::Store { path, p, i, v } => {
-                let ps = match path {
-                    Path::Write => "write",
-                    Path::Raw => "raw",
-                    Path::Stb => "stb",
-                };
-                write!(f, "store {ps} {p} {i} {}", show_slot(v))
-            }
+            Op::Store { path, p, i, v } => write!(f, "store {} {p} {i} {}", path.name(), show_slot(v)),
             Op::RootStore { i, v } => write!(f, "rootstore {i} {}", show_slot(v)),
             Op::DropArena => write!(f, "drop"),
+            Op::Marker => write!(f, "marker"),
         }
     }
 }
@@ -360,12 +468,13 @@ pub fn parse_op(ws: &[&str]) -> Option<Op> {
         ["enter", k] => Op::Enter(Cb::ALL_NAMES.iter().find(|(n, _)| n == k).map(|(_, c)| *c)?),
         ["leave"] => Op::Leave { panic: false },
         ["leave", "panic"] => Op::Leave { panic: true },
+        ["barrier", "getorinit", _] | ["alloc", "getorinit-child", ..] | ["marker"] => Op::Marker,
         ["alloc", k, rest @ ..] => {
             let mut slots = vec![];
             for s in rest {
                 slots.push(parse_slot(s)?);
             }
-            Op::Alloc { leaf: *k == "leaf", slots }
+            Op::Alloc { kind: *Kind::ALL.iter().find(|x| x.name() == *k)?, slots }
         }
         ["readroot", i] => Op::ReadRoot(i.parse().ok()?),
         ["read", p, i] => Op::Read(p.parse().ok()?, i.parse().ok()?),
@@ -379,12 +488,9 @@ pub fn parse_op(ws: &[&str]) -> Option<Op> {
         ["barrier", "fb", p, c] => Op::Barrier(Barrier::Fb(popt(p)?, c.parse().ok()?)),
         ["barrier", "fbw", p, c] => Op::Barrier(Barrier::Fbw(popt(p)?, c.parse().ok()?)),
         ["store", path, p, i, v] => Op::Store {
-            path: match *path {
-                "write" => Path::Write,
-                "raw" => Path::Raw,
-                "stb" => Path::Stb,
-                _ => return None,
-            },
+            // `onceset-full` / `getorinit-full`: what the executor writes when the cell turned out to
+            // be occupied (a read for the model); the same op when replayed
+            path: *Path::ALL.iter().find(|x| x.name() == path.strip_suffix("-full").unwrap_or(path))?,
             p: p.parse().ok()?,
             i: i.parse().ok()?,
             v: parse_slot(v)?,
